@@ -254,6 +254,8 @@ pub struct RecStream {
     pub yields: bool,
     /// every `flush` call with index >= this fails (a persistently failing device)
     pub flush_fail_from: Option<u64>,
+    /// every entry gets this result (a stream that rejects everything)
+    pub fail_all: Option<Res>,
     /// at the start of the `next` call with this index the *writer thread* gets a scoped tracing
     /// subscriber (a subscriber installed after the queue was built)
     pub install_subscriber_at: Option<u64>,
@@ -286,6 +288,7 @@ impl RecStream {
                 next_cost_ns: 0,
                 yields: true,
                 flush_fail_from: None,
+                fail_all: None,
                 install_subscriber_at: None,
                 next_calls: 0,
                 flush_calls: 0,
@@ -346,7 +349,7 @@ impl EntryIoStream for RecStream {
         let res = if seen.report {
             self.report_res
         } else {
-            seen.id.and_then(|id| self.script.get(&id).copied()).unwrap_or(Res::Ok)
+            seen.id.and_then(|id| self.script.get(&id).copied()).or(self.fail_all).unwrap_or(Res::Ok)
         };
         self.ctl.hist.log(K::NextEnd { stream: no, id: seen.id, report: seen.report, res });
         self.ctl.nexts_done.fetch_add(1, Ordering::SeqCst);
